@@ -116,7 +116,8 @@ def step (st : St) (toks : List String) : St :=
     let c : Cfg := { baseUri := str b, deviceUrl := str u, server := str srv,
                      cacheControl := Gen.C13Server.cacheControl, date := str date,
                      bootId := str boot, configId := str conf, host := str host }
-    { st with alwaysRoot := (ar == "1"), cfg := some (c, str target) }
+    let ov : OptVal := if ar == "truthy" then .truthy else if ar == "falsy" then .falsy else .absent
+    { st with alwaysRoot := ov.isSet, cfg := some (c, str target) }
   | ["cls", d, u, t, s, ids] => { st with cls := st.cls.push (parseNode d u t s ids) }
   | ["dev", d, u, t, s] => { st with dev := st.dev.push (parseNode d u t s) }
   | ["search", _id, time, reqr, line, man, stt, mx, sel] =>
